@@ -511,7 +511,7 @@ fn run_shard(prop: &dyn Property, tier: Tier, shard: u64, nshards: u64, agg: &Mu
             WorkerEnd::Hang(idx, last_progress) => {
                 agg.lock().unwrap().restarts += 1;
                 // confirm in a fresh process with a large budget
-                let c = WorkerArgs { tier, shard: 0, nshards: 1, from: 0, careful: false, single: Some(idx), budget_ms: Some(6000), skip: vec![] };
+                let c = WorkerArgs { tier, shard: 0, nshards: 1, from: 0, careful: false, single: Some(idx), budget_ms: Some((3 * prop.budget_ms()).max(6000)), skip: vec![] };
                 let confirm_agg = Mutex::new(Agg::default());
                 match run_worker_to_end(id, &c, &confirm_agg) {
                     WorkerEnd::Done => {
